@@ -26,6 +26,66 @@ CHECKS = {
         ref='DESIGN.md section 4 C13'),
 }
 
+CHECKS.update({
+    'C01': dict(
+        text='Capture engine: CaptureRegion/EndCaptureRegion.capture, '
+             'FileInspector.eat_chunk/_capture/finish are proved to keep every '
+             'region in sync with a symbolic ghost stream (data == '
+             'S[offset:min(p, offset+length)], tail window for end regions) '
+             'for a symbolic chunk at a symbolic position - all chunkings, '
+             'empty chunks, any stream length; regions added by post_process '
+             'are fed the current chunk exactly once. Per inspector class '
+             '(raw, qcow2, qed, vhd, vdi, iso, gpt, luks): init/step/verdict '
+             'obligations show the abstraction relation R_F(S,p) is '
+             'inductive over chunks and that format_match, complete, '
+             'virtual_size and the safety_check outcome are the spec '
+             'functions of the stream prefix, with pure observers. VHDX and '
+             'VMDK (pointer-located regions) and the wrapper-level '
+             'composition are covered by separate contract files as they '
+             'are built; see DESIGN.md status table.',
+        note='Trusted: pyvc VC generator, z3; A-STATIC; set iteration order '
+             'of region sets taken as insertion order. The chunk-sequence '
+             'induction (R-init, R-step => every chunking) is the standard '
+             'loop rule, not mechanised per driver.',
+        ref='DESIGN.md section 4 C01, section 3.1'),
+    'C02': dict(
+        text='Iff-contracts, written from the property text, for every '
+             'safety check of the fixed-layout inspectors (qcow2 backing '
+             'file / data file / unknown feature bits over all 64 bits and '
+             'all versions, QED banned, LUKS version, MBR/GPT partition '
+             'table rules, null checks) and for FileInspector.safety_check '
+             '(refused iff incomplete or mismatching; SafetyCheckFailed keys '
+             '= exactly the failing checks; ok iff none) proved for a '
+             'symbolic stream; SafetyCheck.__call__ error-to-violation.',
+        note='Trusted: pyvc, z3, A-STATIC. VMDK descriptor/footer checks and '
+             'cli.main are covered by their own contract files when built.',
+        ref='DESIGN.md section 4 C02'),
+    'C03': dict(
+        text='Per-class signature soundness and totality: format_match and '
+             'complete of the fixed-layout inspectors equal the spec '
+             'signature predicate of the stream prefix in every reachable '
+             'state (so they cannot raise), proved for a symbolic stream.',
+        note='Trusted: pyvc, z3, A-STATIC.',
+        ref='DESIGN.md section 4 C03'),
+    'C05': dict(
+        text='len(region.data) <= region.length is preserved by both capture '
+             'methods for any chunk; every fixed-layout inspector has the '
+             'specified region table whose lengths sum to <= 512 KiB, and '
+             'context_info reports exactly the retained lengths; proved '
+             'after __init__ and after an arbitrary eat_chunk.',
+        note='Trusted: pyvc, z3, A-STATIC.',
+        ref='DESIGN.md section 4 C05'),
+    'C07': dict(
+        text='virtual_size of raw, qcow2, vhd, vdi, iso, gpt, luks equals '
+             'the spec decoder of the ghost stream (big/little-endian field '
+             'at the documented offset, ISO blocks x block size, LUKS length '
+             '- 512*payload offset) over the full field range, and 0 while '
+             'the carrying region is incomplete or the signature is absent.',
+        note='Trusted: pyvc, z3, A-STATIC; struct.unpack model (cross-checked '
+             'against CPython by the native tier).',
+        ref='DESIGN.md section 4 C07'),
+})
+
 NOT_YET = {}
 
 ALL = ['C%02d' % i for i in range(1, 21)]
